@@ -190,6 +190,25 @@ def run_battery():
     pairs = [(aname, cname) for aname in list(CORPUS) + list(MARKERLESS) for cname in C if applicable(cname, C[cname][0], aname)]
     if os.environ.get('BATTERY_ORDER') == 'rev':
         pairs.reverse()
+    if os.environ.get('BATTERY_MODE') == 'isolated':
+        # every (call, argument) in its own forked child: no call sees the effects of another one
+        for aname, cname in pairs:
+            r, w = os.pipe()
+            pid = os.fork()
+            if pid == 0:
+                try:
+                    os.close(r)
+                    data = json.dumps(invoke(C[cname][1], build(aname), amr)).encode()
+                    with os.fdopen(w, 'wb') as fh:
+                        fh.write(data)
+                finally:
+                    os._exit(0)
+            os.close(w)
+            with os.fdopen(r, 'rb') as fh:
+                data = fh.read()
+            os.waitpid(pid, 0)
+            out[f'{cname}@{aname}'] = json.loads(data.decode()) if data else {'child': 'no result'}
+        return out
     for aname, cname in pairs:
         out[f'{cname}@{aname}'] = invoke(C[cname][1], build(aname), amr)
     return out
